@@ -247,3 +247,89 @@ package varlink
 //@   assert [close C10] at call(Close)#1 : arg0 == conn
 //@   loop 1 invariant [reader C02] ctxConn != nil && gNewConn == old(gNewConn) + 1 && !held[s]
 //@   loop 1 decreases *
+
+// ---- addresses (C19) and socket activation (C20)
+
+//@ pred colon(a) = firstIdx(a, ":")
+//@ pred afterColon(a) = a[colon(a) + 1:len(a)]
+//@ pred pathOf(a) = firstIdx(afterColon(a), ";") < 0 ? afterColon(a) : afterColon(a)[0:firstIdx(afterColon(a), ";")]
+//@ pred protoOf(a) = a[0:colon(a)]
+//@ pred refusedAddr(a) = colon(a) < 0 || (protoOf(a) != "unix" && protoOf(a) != "tcp") || (protoOf(a) == "unix" && pathOf(a) == "")
+
+//@ ghost gRemoved bool
+//@ ghost gAct iface
+
+//@ func listen {C19 | safety: C19}
+//@   ensures [unix C19] result1 == nil ==> result0 != nil && (network == "unix" ==> typeof(result0) == typeid(ptr(net.UnixListener)))
+//@   ensures [fail C19] result1 != nil ==> result0 == nil
+
+//@ func (*Service).parseAddress {C19 | safety: C19}
+//@   requires [nn] s != nil
+//@   modifies s.protocol, s.address
+//@   ensures [nocolon C19] colon(address) < 0 ==> result != nil && s.protocol == old(s.protocol) && s.address == old(s.address)
+//@   ensures [fields C19] colon(address) >= 0 ==> s.protocol == protoOf(address) && s.address == pathOf(address)
+//@   ensures [refuse C19] refusedAddr(address) <==> result != nil
+
+//@ func (*Service).setListener {C19 C20 | safety: C19}
+//@   requires [nn] s != nil && !held[s] && (s.protocol == "unix" ==> len(s.address) >= 1)
+//@   modifies s.listener, held, gRemoved, gAct, gPidOk, gNfds, gNfdsOk, gNamesSet, gNames, gFd, gFdCalled, gFLErr
+//@   ghostset at call(activationListener)#1 : gRemoved = false
+//@   ghostset at call(activationListener)#1 : gAct = res0
+//@   ghostset at call(Remove)#1 : gRemoved = true
+//@   ensures [ok C19 C20] result == nil ==> s.listener != nil && (gAct != nil ==> s.listener == gAct)
+//@   ensures [fail C19] result != nil ==> s.listener == old(s.listener)
+//@   ensures [unlocked C19] !held[s] && (forall r ref :: r != s ==> held[r] == old(held)[r])
+//@   assert [remove C19] at call(Remove)#1 : s.protocol == "unix" && s.address[0] != 64 && arg0 == s.address && gAct == nil
+//@   assert [listen C19 C20] at call(listen)#1 : gAct == nil && arg1 == s.protocol && arg2 == s.address && ((s.protocol == "unix" && s.address[0] != 64) ==> gRemoved)
+//@   assert [unlink C19] at call(SetUnlinkOnClose)#1 : arg1 == true && s.protocol == "unix" && s.address[0] != 64
+
+//@ func (*Service).Bind {C14 C19 | safety: C19}
+//@   requires [nn] s != nil && !held[s]
+//@   modifies s.protocol, s.address, s.listener, held, gRemoved, gAct, gPidOk, gNfds, gNfdsOk, gNamesSet, gNames, gFd, gFdCalled, gFLErr
+//@   ensures [busy C14] old(s.running) ==> result != nil && s.listener == old(s.listener) && s.protocol == old(s.protocol) && s.address == old(s.address)
+//@   ensures [refuse C19] !old(s.running) && refusedAddr(address) ==> result != nil && s.listener == old(s.listener)
+//@   ensures [ok C14 C19] result == nil ==> s.listener != nil && !old(s.running)
+//@   ensures [fail C19] result != nil ==> s.listener == old(s.listener)
+//@   ensures [unlocked C14 C19] !held[s] && (forall r ref :: r != s ==> held[r] == old(held)[r])
+//@   ensures [running C14] s.running == old(s.running)
+
+//@ func NewConnection {C19 | safety: C19}
+//@   ensures [nocolon C19] colon(address) < 0 ==> result1 != nil && result0 == nil
+//@   ensures [ok C19] result1 == nil ==> result0 != nil && result0.conn != nil
+//@   assert [fields C19] at call(DialContext)#1 : colon(address) >= 0 && arg2 == protoOf(address) && arg3 == pathOf(address)
+
+//@ ghost gPidOk bool
+//@ ghost gNfds int
+//@ ghost gNfdsOk bool
+//@ ghost gNamesSet bool
+//@ ghost gNames strs
+//@ ghost gFd int
+//@ ghost gFdCalled bool
+//@ ghost gFLErr iface
+
+//@ pred actPre() = gPidOk && gNfdsOk && gNfds >= 1
+
+//@ func activationListener {C20 | safety: C20}
+//@   modifies gPidOk, gNfds, gNfdsOk, gNamesSet, gNames, gFd, gFdCalled, gFLErr
+//@   ghostset at call(Getenv)#1 : gFdCalled = false
+//@   ghostset at call(Getenv)#1 : gPidOk = false
+//@   ghostset at call(Getenv)#1 : gNfdsOk = false
+//@   ghostset at call(Getenv)#1 : gNamesSet = false
+//@   ghostset at call(Getpid)#1 : gPidOk = (err == nil && pid == res0)
+//@   ghostset at call(Atoi)#2 : gNfds = res0
+//@   ghostset at call(Atoi)#2 : gNfdsOk = (res1 == nil)
+//@   ghostset at call(LookupEnv)#1 : gNamesSet = res1
+//@   ghostset at call(Split)#1 : gNames = res0
+//@   ghostset at call(NewFile)#1 : gFd = arg0
+//@   ghostset at call(NewFile)#1 : gFdCalled = true
+//@   ghostset at call(FileListener)#1 : gFLErr = res1
+//@   assert [env-pid C20] at call(Getenv)#1 : arg0 == "LISTEN_PID"
+//@   assert [env-fds C20] at call(Getenv)#2 : arg0 == "LISTEN_FDS"
+//@   assert [env-names C20] at call(LookupEnv)#1 : arg0 == "LISTEN_FDNAMES"
+//@   ensures [sel C20] result != nil ==> actPre() && gFdCalled && gFLErr == nil && (gNfds == 1 ==> gFd == 3) &&
+//@       (gNfds > 1 ==> gNamesSet && len(gNames) == gNfds && 3 <= gFd && gFd < 3 + gNfds && gNames[gFd - 3] == "varlink" && (forall j int :: 0 <= j && j < gFd - 3 ==> gNames[j] != "varlink"))
+//@   ensures [fallback C20] !gFdCalled ==> result == nil
+//@   ensures [conv1 C20] actPre() && gNfds == 1 ==> gFdCalled && gFd == 3 && (result == nil ==> gFLErr != nil)
+//@   ensures [convN C20] actPre() && gNfds > 1 && gNamesSet && len(gNames) == gNfds && !gFdCalled ==> (forall k int :: 0 <= k && k < len(gNames) ==> gNames[k] != "varlink")
+//@   ensures [convN2 C20] actPre() && gNfds > 1 && gNamesSet && len(gNames) == gNfds && gFdCalled && result == nil ==> gFLErr != nil
+//@   loop 1 invariant [first C20] fd == -1 && -1 <= rangeindex && (forall j int :: 0 <= j && j <= rangeindex ==> names[j] != "varlink")
